@@ -620,11 +620,14 @@ impl AssetCategorizer {
         let mut dependable_value = None;
         let mut min_value = None;
         if let Some(last_output) = tx_proposal.get_outputs().last() {
-            dependable_value = Some(
-                tx_proposal
-                    .get_unused_ada()?
-                    .checked_add(&last_output.get_total_ada())?,
-            );
+            // what the last output can hold before the fee is taken from it: everything not
+            // assigned to the outputs (the fee currently stored in the proposal is a stale
+            // estimate and must not be subtracted a second time)
+            let free_ada = tx_proposal
+                .total_ada
+                .checked_sub(&tx_proposal.get_total_ada_for_ouputs()?)
+                .unwrap_or(Coin::zero());
+            dependable_value = Some(free_ada.checked_add(&last_output.get_total_ada())?);
             min_value = Some(last_output.get_min_ada());
             tx_len -= CborCalculator::get_coin_size(&last_output.get_total_ada());
         }
